@@ -5,6 +5,7 @@ mod gen;
 mod hufcodec;
 mod frames;
 mod fsecodec;
+mod fsex;
 mod ring;
 mod util;
 
@@ -96,6 +97,8 @@ fn main() {
         "c05case" => fd::c05case(rest),
         "c11exec" => fd::c11exec(rest),
         "c14rows" => fmt::c14rows(rest),
+        "c12dec" => fsex::c12dec(rest),
+        "c12enc" => fsex::c12enc(rest),
         "mkcorpus" => gen::mkcorpus(rest),
         "encexec" => enc::encexec(rest),
         "encgraph" => enc::encgraph(rest),
